@@ -53,6 +53,10 @@ func NewReflector[S, A any](t hseq.Type[S]) Reflector[A] {
 		panic(fmt.Errorf("invalid type: Reflector[%s, %s] container is not a struct", cat.String(), fv.Name()))
 	}
 
+	if !inline(cat, t.StructField, t.RootOffs+t.Offset) {
+		panic(fmt.Errorf("invalid type: Reflector[%s, %s] field %s is not laid out inside the struct (embedded pointer?)", cat.Name(), fv.Name(), t.Name))
+	}
+
 	if ft.String() == fv.String() && ft.AssignableTo(fv) {
 		return &lens[S, A]{t}
 	}
